@@ -44,6 +44,9 @@ pub struct ReplayFile {
     /// for probe-based checks (C13): the probe binary that must replay this
     #[serde(default)]
     pub probe: Option<String>,
+    /// the violation is a crash of the process (the trace was recovered from a streamed file)
+    #[serde(default)]
+    pub crash: bool,
 }
 
 #[derive(Clone, Debug, serde::Serialize, serde::Deserialize)]
@@ -278,9 +281,27 @@ fn ops_of(e: &mut Event) -> Option<&mut Vec<Op>> {
     }
 }
 
+/// Does executing `t` in a process of its own kill that process?
+fn crashes(t: &Trace) -> bool {
+    let exe = std::env::current_exe().unwrap();
+    let tmp = out_dir().join("replays").join(format!(".cand-{}.json", std::process::id()));
+    let rf = ReplayFile { version: 1, property: "?".into(), oracle: "crash".into(), seed: 0, run_index: 0, sub: 0, profile: profile_name().into(), trace: t.clone(), violation: crate::world::Violation { oracle: "crash".into(), event: 0, detail: String::new(), aliases: vec![] }, log_digest: String::new(), minimised: false, probe: None, crash: true };
+    if std::fs::write(&tmp, serde_json::to_vec(&rf).unwrap()).is_err() {
+        return false;
+    }
+    let st = Command::new(&exe).args(["replay-inner", tmp.to_str().unwrap()]).stdout(Stdio::null()).stderr(Stdio::null()).status();
+    let _ = std::fs::remove_file(&tmp);
+    match st {
+        Ok(s) => s.code().is_none() || s.code() == Some(134),
+        Err(_) => false,
+    }
+}
+
 pub fn minimise(t: &Trace, oracle: &str, budget: Duration) -> Trace {
     let t0 = Instant::now();
     let mut cur = t.clone();
+    let crash_mode = oracle.ends_with("crash");
+    let still_fails = |t: &Trace, o: &str| if crash_mode { crashes(t) } else { still_fails(t, o) };
     if !still_fails(&cur, oracle) {
         return cur;
     }
@@ -372,6 +393,12 @@ pub fn minimize_cmd(args: &[String]) -> i32 {
     // id the executor itself raises
     let base_oracle = if rf.oracle == rf.violation.oracle || rf.violation.aliases.contains(&rf.oracle) { rf.oracle.clone() } else { rf.violation.oracle.clone() };
     let t = minimise(&rf.trace, &base_oracle, Duration::from_secs(30));
+    if rf.crash {
+        // never execute a crashing trace in this process
+        let out = ReplayFile { trace: t, minimised: true, ..rf };
+        std::fs::write(&args[1], serde_json::to_vec_pretty(&out).unwrap()).unwrap();
+        return 0;
+    }
     let o = run::run_replay(&t, &ecfg());
     let Some(v) = o.viol.clone() else { return 3 };
     let out = ReplayFile { trace: o.trace.clone(), violation: v, log_digest: format!("{:016x}", o.digest), minimised: true, ..rf };
@@ -382,6 +409,28 @@ pub fn minimize_cmd(args: &[String]) -> i32 {
 /// `sim replay <file>`: execute the recorded trace with no PRNG; exit 1 and print the violation
 /// if it reproduces, exit 0 if the run is clean.
 pub fn replay_cmd(args: &[String]) -> i32 {
+    // the trace is executed in a child process, so that a crash is an outcome like any other
+    let exe = std::env::current_exe().unwrap();
+    let st = Command::new(&exe).arg("replay-inner").args(args).status();
+    match st {
+        Ok(s) if s.code() == Some(0) => 0,
+        Ok(s) if s.code() == Some(1) => 1,
+        Ok(s) if s.code() == Some(2) => 2,
+        Ok(s) => {
+            let prop = std::fs::read(&args[0]).ok().and_then(|b| serde_json::from_slice::<ReplayFile>(&b).ok()).map(|r| r.property).unwrap_or_default();
+            println!("REPLAY property={prop} the process executing the trace died ({s})");
+            println!("VIOLATION property={prop} replay={}", args[0]);
+            1
+        }
+        Err(e) => {
+            eprintln!("harness error: cannot start the replay process: {e}");
+            2
+        }
+    }
+}
+
+/// `sim replay-inner <file>`: what `replay` runs in a child process.
+pub fn replay_inner_cmd(args: &[String]) -> i32 {
     let rf: ReplayFile = match std::fs::read(&args[0]).ok().and_then(|b| serde_json::from_slice(&b).ok()) {
         Some(r) => r,
         None => {
@@ -443,6 +492,7 @@ pub fn write_replay(prop: &str, seed: u64, f: &Found) -> PathBuf {
         log_digest: format!("{:016x}", f.digest),
         minimised: false,
         probe: None,
+        crash: false,
     };
     let full = path.with_extension("full.json");
     std::fs::write(&full, serde_json::to_vec_pretty(&rf).unwrap()).unwrap();
@@ -483,11 +533,39 @@ pub fn check_cmd(args: &[String]) -> i32 {
     for (idx, msg) in &batch.crashes {
         if props::owns(prop, "crash") || msg.contains("watchdog") && matches!(prop, "C08" | "C09") {
             violations += 1;
-            let path = out_dir().join("replays").join(format!("{prop}-crash-s{seed}-i{idx}.txt"));
-            let _ = std::fs::create_dir_all(path.parent().unwrap());
-            let _ = std::fs::write(&path, format!("property {prop}\nseed {seed}\nrun_index {idx}\n{msg}\nre-run: sim one {prop} {seed} {idx}\n"));
+            if reported.iter().any(|r: &serde_json::Value| r["oracle"] == format!("{prop}.crash")) {
+                continue; // one crash replay per batch is enough
+            }
+            let dir = out_dir().join("replays");
+            let _ = std::fs::create_dir_all(&dir);
+            // recover the trace: re-run that index in a process of its own, streaming every event
+            // and op before it is executed
+            let stream = dir.join(format!(".stream-{prop}-{idx}.txt"));
+            let exe = std::env::current_exe().unwrap();
+            let _ = Command::new(&exe).args(["one", prop, &seed.to_string(), &idx.to_string(), "--stream", stream.to_str().unwrap()]).stdout(Stdio::null()).stderr(Stdio::null()).status();
+            let trace = std::fs::read_to_string(&stream).ok().and_then(|t| run::trace_from_stream(&t));
+            let _ = std::fs::remove_file(&stream);
+            let path = match trace {
+                Some(trace) => {
+                    let path = dir.join(format!("{prop}-crash-s{seed}-i{idx}-{}.json", profile_name()));
+                    let n = trace.events.len();
+                    let rf = ReplayFile { version: 1, property: prop.to_string(), oracle: format!("{prop}.crash"), seed, run_index: *idx, sub: 0, profile: profile_name().to_string(), trace, violation: crate::world::Violation { oracle: format!("{prop}.crash"), event: n.saturating_sub(1), detail: msg.clone(), aliases: vec![] }, log_digest: String::new(), minimised: false, probe: None, crash: true };
+                    let full = path.with_extension("full.json");
+                    let _ = std::fs::write(&full, serde_json::to_vec_pretty(&rf).unwrap());
+                    let st = Command::new(&exe).args(["minimize", full.to_str().unwrap(), path.to_str().unwrap()]).stdout(Stdio::null()).stderr(Stdio::null()).status();
+                    if !st.map(|s| s.success()).unwrap_or(false) || !path.exists() {
+                        let _ = std::fs::copy(&full, &path);
+                    }
+                    path
+                }
+                None => {
+                    let path = dir.join(format!("{prop}-crash-s{seed}-i{idx}.txt"));
+                    let _ = std::fs::write(&path, format!("property {prop}\nseed {seed}\nrun_index {idx}\n{msg}\nre-run: sim one {prop} {seed} {idx}\n(the trace could not be recovered)\n"));
+                    path
+                }
+            };
             println!("VIOLATION property={prop} replay={} oracle={prop}.crash event=? ({msg})", path.display());
-            reported.push(serde_json::json!({"oracle": format!("{prop}.crash"), "run_index": idx, "detail": msg}));
+            reported.push(serde_json::json!({"oracle": format!("{prop}.crash"), "run_index": idx, "detail": msg, "replay": path.display().to_string()}));
         } else {
             println!("note: {msg} (counted as a run aborted by a foreign violation)");
             harness_error.get_or_insert(msg.clone());
@@ -663,6 +741,10 @@ pub fn one_cmd(args: &[String]) -> i32 {
     let prop = &args[0];
     let seed: u64 = args[1].parse().unwrap();
     let idx: u64 = args[2].parse().unwrap();
+    if let Some(i) = args.iter().position(|a| a == "--stream") {
+        let p = PathBuf::from(&args[i + 1]);
+        run::STREAM_TO.with(|s| *s.borrow_mut() = Some(p));
+    }
     let mut bs = BatchStats::default();
     let mut found = vec![];
     let mut samples = vec![];
